@@ -67,6 +67,7 @@ class Ctx:
         self.t0 = time.time()
         self.obligations = []        # (name, ok, detail)
         self.corr = {}               # name -> stats
+        self.seen = {}               # name -> set of distinct input lines (for the distinct count)
         self.samples = []
         self.assumptions = []
         self.trusted = []
@@ -392,7 +393,8 @@ def corr(ctx, name, go_cmd, go_args, driver_args, timeout=3600, only=None, const
         if const and kind in const:
             # lines whose expected answer is a constant of the protocol (liveness, availability)
             st0 = ctx.corr.setdefault(name + ':' + kind, {'cases': 0, 'distinct': 0, 'mismatches': 0, 'distribution': {}, 'runs': []})
-            st0['cases'] += 1; st0['distinct'] += 1
+            seen0 = ctx.seen.setdefault(name + ':' + kind, set()); seen0.add(l)
+            st0['cases'] += 1; st0['distinct'] = len(seen0)
             if r != const[kind]:
                 st0['mismatches'] += 1
                 const_mism.append((len(lines), l, r, const[kind]))
@@ -424,9 +426,9 @@ def corr(ctx, name, go_cmd, go_args, driver_args, timeout=3600, only=None, const
                 stats = json.loads(sl)
             except Exception:
                 pass
-    distinct = len(set(lines))
+    seen = ctx.seen.setdefault(name, set()); seen.update(lines)
     st = ctx.corr.setdefault(name, {'cases': 0, 'distinct': 0, 'mismatches': 0, 'distribution': {}, 'runs': []})
-    st['cases'] += len(lines); st['distinct'] += distinct; st['mismatches'] += len(mism)
+    st['cases'] += len(lines); st['distinct'] = len(seen); st['mismatches'] += len(mism)
     st['runs'].append({'cmd': go_cmd + ' ' + ' '.join(str(a) for a in go_args), 'cases': len(lines), 'distribution': stats})
     if lines and len(ctx.samples) < 6:
         ctx.samples.append({'corr': name, 'case': lines[0][:400], 'code': expect[0][:200], 'model': got[0][:200]})
